@@ -27,6 +27,7 @@
 #include <sys/stat.h>
 #include <sys/utsname.h>
 #include <alloca.h>
+#include <pthread.h>
 #include <linux/sched.h>
 #include <stdint.h>
 #include <sys/time.h>
@@ -205,7 +206,18 @@ static void __attribute__((noinline)) dirty_stack(size_t nbytes) {
     for (size_t i = 0; i < nbytes; i++) p[i] = 0xA5;
     __asm__ volatile("" ::: "memory");
 }
+static void do_call_here(const char *kind);
+static size_t thread_stack = 0;            /* command threadstack <bytes>: calls are made from a fresh thread with that much stack (0 = the main thread) */
+static void *call_thread(void *k) { do_call_here((const char *) k); return NULL; }
 static void do_call(const char *kind) {
+    if (!thread_stack) { do_call_here(kind); return; }
+    pthread_attr_t a; pthread_attr_init(&a); pthread_attr_setstacksize(&a, thread_stack);
+    pthread_t th; size_t saved = dirty_bytes; if (dirty_bytes > thread_stack / 8) dirty_bytes = thread_stack / 8;
+    if (pthread_create(&th, &a, call_thread, (void *) kind)) { opf("{\"ev\":\"error\",\"what\":\"pthread_create: %s\"}\n", strerror(errno)); do_call_here(kind); }
+    else pthread_join(th, NULL);
+    dirty_bytes = saved; pthread_attr_destroy(&a);
+}
+static void do_call_here(const char *kind) {
     rc->ncalls = 0; rc->mode = cur.real ? REC_MODE_REAL : REC_MODE_RETURN; rc->ret = cur.ret; rc->err = cur.err; rc->on_call = at_exec;
     free(cur.s_path); cur.s_path = cur.path ? (unsigned char *) strdup((char *) cur.path) : NULL;
     cur.s_argv = dupvec(cur.argv, cur.argc); cur.s_envp = dupvec(cur.envp, cur.envc);
@@ -381,6 +393,7 @@ static size_t run_line(size_t pc, int in_child, int *stop) {
     } else if (!strcmp(c, "writefile")) { unsigned char *a = unhex(tok[1], &n); size_t m = 0; unsigned char *b = unhex(tok[2], &m);
         int fd = open((char *) a, O_WRONLY | O_CREAT | O_TRUNC, 0644); if (fd < 0 || write(fd, b, m) < 0) opf("{\"ev\":\"error\",\"what\":\"writefile: %s\"}\n", strerror(errno)); if (fd >= 0) close(fd); free(a); free(b);
     } else if (!strcmp(c, "chmodpath")) { unsigned char *a = unhex(tok[1], &n); if (chmod((char *) a, (mode_t) strtol(tok[2], NULL, 8))) opf("{\"ev\":\"error\",\"what\":\"chmod: %s\"}\n", strerror(errno)); free(a);
+    } else if (!strcmp(c, "threadstack")) { thread_stack = (size_t) atol(tok[1]);
     } else if (!strcmp(c, "preerrno")) { pre_errno = atoi(tok[1]);
     } else if (!strcmp(c, "childtimeout")) { child_timeout = atol(tok[1]);
     } else if (!strcmp(c, "dirtystack")) { dirty_bytes = (size_t) atol(tok[1]);
